@@ -277,6 +277,19 @@ impl CoreInner {
 		table_id: u64,
 		wal_number: u64,
 	) -> Result<Arc<Table>> {
+		self.flush_part_to_sst(memtable, table_id, wal_number, true)
+	}
+
+	/// `flush_immutable_to_sst` for a memtable that may hold only a part of its segment
+	/// (recovery splits a segment that does not fit one memtable): only the flush of the
+	/// segment's last part may mark the segment as flushed.
+	fn flush_part_to_sst(
+		&self,
+		memtable: Arc<MemTable>,
+		table_id: u64,
+		wal_number: u64,
+		segment_complete: bool,
+	) -> Result<Arc<Table>> {
 		let collect_bptree = self.versioned_index.is_some();
 
 		// Step 1: Flush memtable to SST (with VLog separation for large values)
@@ -323,7 +336,9 @@ impl CoreInner {
 		// Step 3: Prepare atomic changeset
 		let mut changeset = ManifestChangeSet::default();
 		changeset.new_tables.push((0, Arc::clone(&table)));
-		changeset.log_number = Some(wal_number + 1);
+		if segment_complete {
+			changeset.log_number = Some(wal_number + 1);
+		}
 
 		log::debug!(
 			"Changeset prepared: table_id={}, log_number={} (WAL #{:020} flushed)",
@@ -1117,6 +1132,7 @@ impl Core {
 	///
 	/// # Returns
 	/// * `(Option<max_seq_num>, Option<active_memtable>)`
+	#[cfg(test)]
 	pub(crate) fn replay_wal_with_repair<F>(
 		wal_path: &Path,
 		min_wal_number: u64,
@@ -1127,6 +1143,31 @@ impl Core {
 	) -> Result<(Option<u64>, Option<Arc<MemTable>>)>
 	where
 		F: FnMut(Arc<MemTable>, u64) -> Result<()>,
+	{
+		Self::replay_wal_with_repair_parts(
+			wal_path,
+			min_wal_number,
+			context,
+			recovery_mode,
+			arena_size,
+			|memtable, wal_number, _segment_complete| flush_memtable(memtable, wal_number),
+		)
+	}
+
+	/// Replays the commit log; `flush_memtable(memtable, wal_number, segment_complete)` is
+	/// called for every recovered memtable that has to go to disk at once. A segment that
+	/// does not fit one memtable is split into parts: `segment_complete` is true only for
+	/// the last part of a segment - only then may the segment be marked as flushed.
+	pub(crate) fn replay_wal_with_repair_parts<F>(
+		wal_path: &Path,
+		min_wal_number: u64,
+		context: &str,
+		recovery_mode: WalRecoveryMode,
+		arena_size: usize,
+		mut flush_memtable: F,
+	) -> Result<(Option<u64>, Option<Arc<MemTable>>)>
+	where
+		F: FnMut(Arc<MemTable>, u64, bool) -> Result<()>,
 	{
 		// Replay WAL - returns memtables per segment
 		let (wal_seq_num_opt, memtables) = match replay_wal(wal_path, min_wal_number, arena_size) {
@@ -1228,9 +1269,13 @@ impl Core {
 		};
 		if flush_count > 0 {
 			log::info!("Recovery: flushing {} recovered memtables to SST", flush_count);
-			for (memtable, wal_number) in memtables.iter().take(flush_count) {
+			for (i, (memtable, wal_number)) in memtables.iter().enumerate().take(flush_count) {
+				// Only the last part of a segment completes it: a crash between the flushes of
+				// two parts must find the segment still to be replayed.
+				let segment_complete =
+					memtables.get(i + 1).map_or(true, |(_, next_wal)| next_wal != wal_number);
 				if !memtable.is_empty() {
-					flush_memtable(Arc::clone(memtable), *wal_number)?;
+					flush_memtable(Arc::clone(memtable), *wal_number, segment_complete)?;
 				}
 			}
 		}
@@ -1317,16 +1362,21 @@ impl Core {
 		);
 
 		// Replay WAL with configurable recovery mode (returns None if skipped/empty)
-		let (wal_seq_num_opt, recovered_memtable) = Self::replay_wal_with_repair(
+		let (wal_seq_num_opt, recovered_memtable) = Self::replay_wal_with_repair_parts(
 			&wal_path,
 			min_wal_number,
 			"Database startup",
 			opts.wal_recovery_mode,
 			opts.max_memtable_size,
-			|memtable, wal_number| {
+			|memtable, wal_number, segment_complete| {
 				// Flush intermediate memtable to SST during recovery
 				let table_id = inner.level_manifest.read()?.next_table_id();
-				inner.flush_immutable_to_sst(Arc::clone(&memtable), table_id, wal_number)?;
+				inner.flush_part_to_sst(
+					Arc::clone(&memtable),
+					table_id,
+					wal_number,
+					segment_complete,
+				)?;
 				log::info!(
 					"Recovery: flushed memtable to SST table_id={}, wal_number={}",
 					table_id,
@@ -1754,19 +1804,20 @@ impl Tree {
 		let manifest_log_number = self.core.inner.level_manifest.read()?.get_log_number();
 
 		// Replay any WAL entries that were restored
-		let (wal_seq_num_opt, recovered_memtable) = Core::replay_wal_with_repair(
+		let (wal_seq_num_opt, recovered_memtable) = Core::replay_wal_with_repair_parts(
 			&wal_path,
 			manifest_log_number,
 			"Database restore",
 			self.core.inner.opts.wal_recovery_mode,
 			self.core.inner.opts.max_memtable_size,
-			|memtable, wal_number| {
+			|memtable, wal_number, segment_complete| {
 				// Flush intermediate memtable to SST during recovery
 				let table_id = self.core.inner.level_manifest.read()?.next_table_id();
-				self.core.inner.flush_immutable_to_sst(
+				self.core.inner.flush_part_to_sst(
 					Arc::clone(&memtable),
 					table_id,
 					wal_number,
+					segment_complete,
 				)?;
 				log::info!(
 					"Restore: flushed memtable to SST table_id={}, wal_number={}",
